@@ -261,6 +261,8 @@ class CallMixin:
                 loc[k.arg] = self.const(d.value)
             else:
                 return None, 'TypeError'
+        if star_passthrough is not None and len(pos) < len(names):
+            raise Unsupported('starred arguments feeding named parameters (star_cases must run first)')
         if a.vararg:
             if star_passthrough is not None and not extra:
                 loc[a.vararg.arg] = star_passthrough
@@ -282,9 +284,41 @@ class CallMixin:
             return None, 'TypeError'
         return loc, None
 
+    def star_cases(self, st, fn, pos):
+        """a starred argument of symbolic length (`*args` handed on by the caller) fills the callee's remaining named
+        parameters first and only then its own *args: split on how many it supplies.  -> [(state, positional list)]"""
+        if not (pos and isinstance(pos[-1], tuple) and pos[-1][0] == '*') or not isinstance(fn, ast.FunctionDef):
+            return [(st, pos)]
+        names = [x.arg for x in fn.args.posonlyargs + fn.args.args]
+        explicit = list(pos[:-1])
+        room = len(names) - len(explicit)
+        if room <= 0:
+            return [(st, pos)]
+        star = pos[-1][1]
+        seq = self.seq_of(st, star)
+        ln = z3.Length(seq)
+        out, rest = [], st
+        for L in range(0, room + 1):
+            if rest is None:
+                break
+            hit, rest = self.split(rest, ln == L)
+            if hit is not None:
+                out.append((hit, explicit + [self.nth(seq, z3.IntVal(i)) for i in range(L)]))
+        if rest is not None:
+            # more than fills the named parameters: the remainder is what the callee's *args receives
+            tail = V.tuple(z3.SubSeq(seq, z3.IntVal(room), ln - room))
+            out.append((rest, explicit + [self.nth(seq, z3.IntVal(i)) for i in range(room)] + [('*', tail)]))
+        return out
+
     # ------------------------------------------------------------------ inlining
     def inline(self, st, qual, pos, kw):
         mi, ci, fn = self.w.function(qual)
+        cases = self.star_cases(st, fn, pos)
+        if len(cases) != 1 or cases[0][1] is not pos:
+            res = []
+            for s_, p_ in cases:
+                res.extend(self.inline(s_, qual, p_, kw))
+            return res
         if st.depth >= MAX_INLINE_DEPTH:
             raise Unsupported('inline depth exceeded at %s (recursive function without contract?)' % qual)
         if any(isinstance(x, (ast.Yield, ast.YieldFrom)) for x in ast.walk(fn)):
@@ -384,6 +418,13 @@ class CallMixin:
         if con is None:
             raise Unsupported('missing contract')
         self.used_contracts.add(con.qual)
+        sig_ = con.signature(self)
+        cases = self.star_cases(st, sig_, pos)
+        if len(cases) != 1 or cases[0][1] is not pos:
+            res = []
+            for s_, p_ in cases:
+                res.extend(self.apply_contract(s_, con, p_, kw))
+            return res
         args, err = con.bind(self, st, pos, kw)
         if err:
             return exc(st, err)
